@@ -14,6 +14,7 @@ from .. import progspace, runspace
 from ..common import Check
 
 LEVEL = "exploration"
+RULE = ('cases = (codemod, vendored seed, Variants.tla feature vector) programs plus ProgramSpace run vectors; a case is non-trivial when the codemod actually rewrote the file (for run vectors: the vector itself); distinct = distinct (codemod, seed, vector) / run-vector keys')
 CLAUSE = "FileEnd:rewritten-file-no-longer-parses"
 
 
